@@ -44,6 +44,8 @@ pub enum Ctor {
     /// caller key 0 / 1
     WithKey(u8),
     Unenc,
+    /// New(id) while the next read of that keyring entry fails once (locked keychain)
+    NewReadFault(u8),
 }
 
 fn caller_key(k: u8) -> [u8; 32] {
@@ -69,6 +71,14 @@ fn err_kind(e: &mdk_sqlite_storage::error::Error) -> String {
 fn open(c: Ctor, path: &Path, svc: &str) -> Result<MdkSqliteStorage, String> {
     match c {
         Ctor::New(id) => MdkSqliteStorage::new(path, svc, &format!("key{id}")),
+        Ctor::NewReadFault(id) => {
+            if let Ok(entry) = keyring_core::Entry::new(svc, &format!("key{id}")) {
+                if let Some(cred) = entry.as_any().downcast_ref::<keyring_core::mock::Cred>() {
+                    cred.set_error(keyring_core::Error::PlatformFailure("keychain is locked".into()));
+                }
+            }
+            MdkSqliteStorage::new(path, svc, &format!("key{id}"))
+        }
         Ctor::WithKey(k) => MdkSqliteStorage::new_with_key(path, EncryptionConfig::new(caller_key(k))),
         Ctor::Unenc => MdkSqliteStorage::new_unencrypted(path),
     }
@@ -501,7 +511,7 @@ impl MatrixModel {
                 MFile::Enc(MKey::Caller(k2), m) if k2 == k => Some(m),
                 _ => None,
             },
-            Ctor::New(id) => match f {
+            Ctor::New(id) | Ctor::NewReadFault(id) => match f {
                 MFile::Missing => {
                     self.ring[id as usize] = true;
                     self.files[p] = MFile::Enc(MKey::Ring(id), BTreeSet::new());
@@ -588,7 +598,7 @@ pub fn matrix(rep: &mut Report, depth: usize, umask: u32) {
     init_keyring();
     // the process umask decides which bits a freshly created file starts with; the library must end at 0600 / 0700 under any
     let old_umask = unsafe { libc::umask(umask as libc::mode_t) };
-    let actions: Vec<(Ctor, usize)> = [Ctor::New(0), Ctor::New(1), Ctor::WithKey(0), Ctor::WithKey(1), Ctor::Unenc].iter().flat_map(|c| [(*c, 0usize), (*c, 1usize)]).collect();
+    let actions: Vec<(Ctor, usize)> = [Ctor::New(0), Ctor::New(1), Ctor::WithKey(0), Ctor::WithKey(1), Ctor::Unenc, Ctor::NewReadFault(0)].iter().flat_map(|c| [(*c, 0usize), (*c, 1usize)]).collect();
     let inits = [FileInit::Missing, FileInit::Empty, FileInit::Plain, FileInit::EncCaller0, FileInit::EncKeyring0, FileInit::Garbage];
     let mut seqs: Vec<Vec<(Ctor, usize)>> = vec![vec![]];
     let mut all: Vec<Vec<(Ctor, usize)>> = Vec::new();
@@ -625,13 +635,34 @@ pub fn matrix(rep: &mut Report, depth: usize, umask: u32) {
                 let svc = format!("msvc-{}-{n}", std::process::id());
                 let mut model = matrix_init(*init, &root, &svc);
                 let paths = matrix_paths(&root);
+                // in the 027 pass a database file that exists beforehand is group/world readable (restored with cp, say):
+                // the first successful open must leave it owner-only
+                let lax_existing = umask == 0o027 && !matches!(init, FileInit::Missing);
+                if lax_existing {
+                    let _ = std::fs::set_permissions(&paths[0], std::fs::Permissions::from_mode(0o644));
+                }
+                let mut opened_ok = [!lax_existing, true];
                 let mut ring_bytes: [Option<Vec<u8>>; 2] = [keyring_key(&svc, 0), keyring_key(&svc, 1)];
                 let canary = vec![("group-name canary".to_string(), CANARY_NAME.as_bytes().to_vec())];
                 for (step, (c, p)) in seq.iter().enumerate() {
                     let before_state = model.files[*p].clone();
                     let before_bytes = std::fs::read(&paths[*p]).ok();
-                    let expect = model.open(*c, *p);
+                    let model_before = model.clone();
+                    let mut expect = model.open(*c, *p);
                     let got = open(*c, &paths[*p], &svc);
+                    if let Ctor::NewReadFault(_) = c {
+                        // with the keyring read failing the call may succeed or fail; if it fails nothing may have changed
+                        // except that the file may have been pre-created (empty)
+                        if got.is_err() {
+                            model = model_before;
+                            if matches!(model.files[*p], MFile::Missing) && paths[*p].exists() {
+                                model.files[*p] = MFile::Empty;
+                            }
+                            expect = None;
+                        }
+                        // a pending injected error must not leak into the next step
+                        let _ = keyring_key(&svc, 0);
+                    }
                     opens.fetch_add(1, Ordering::Relaxed);
                     let cell = format!("{c:?} on {}", match &before_state { MFile::Missing => "missing".to_string(), MFile::Empty => "empty".into(), MFile::Plain(_) => "plain".into(), MFile::Enc(k, _) => format!("encrypted({k:?})"), MFile::Garbage => "garbage".into() });
                     cells.lock().unwrap().insert(format!("{cell} keyring={:?}", model.ring));
@@ -639,6 +670,7 @@ pub fn matrix(rep: &mut Report, depth: usize, umask: u32) {
                     let mut bad = |sig: String, what: String| findings.lock().unwrap().push((sig, what, ctx.clone()));
                     match (&expect, &got) {
                         (Some(m), Ok(s)) => {
+                            opened_ok[*p] = true;
                             let seen: BTreeSet<String> = markers(s).into_iter().collect();
                             if seen != *m {
                                 bad(format!("C13|matrix|data-differs-after-reopen|{cell}"), format!("{cell}: the opened database shows {seen:?}, written before: {m:?}"));
@@ -696,7 +728,7 @@ pub fn matrix(rep: &mut Report, depth: usize, umask: u32) {
                                 bad(format!("C13|matrix|directory-mode|path{pi}|{:o}", mode(dir).unwrap_or(0)), format!("after {cell}: database directory of path{pi} has mode {:o}", mode(dir).unwrap_or(0)));
                             }
                             for f in files_in(dir) {
-                                if mode(&f) != Some(0o600) {
+                                if opened_ok[pi] && mode(&f) != Some(0o600) {
                                     bad(format!("C13|matrix|file-mode|{:o}", mode(&f).unwrap_or(0)), format!("after {cell}: {} has mode {:o}", f.display(), mode(&f).unwrap_or(0)));
                                 }
                             }
